@@ -67,8 +67,14 @@ public:
     /// Deserialization constructor.
     explicit distribution_parameters(std::istream& in)
     {
-        // consume newline character and read name
-        std::getline(in >> std::ws, name_);
+        // consume the newline character that separates the name from the preceding number, but
+        // neither an empty name nor leading white space of the name itself
+        if (in.peek() == '\n')
+        {
+            in.get();
+        }
+
+        std::getline(in, name_);
 
         in >> bins_x_ >> x_min_ >> bin_size_x_ >> bins_y_ >> y_min_ >> bin_size_y_;
     }
